@@ -696,11 +696,20 @@ class Interp:
                     outs = self.run_body(s2, body, [t] + bound, {}, site or 'closure')
                 finally:
                     aborted = self.exits; self.exits = saved; self.aggregate_aborts = old_agg
-                outcomes = tuple((tuple(f[0] for f in s3.facts[nf:]), self.snapshot(s3, r, site)) for s3, r in outs)
+                outcomes = tuple((tuple(f[0] for f in s3.facts[nf:]), self.deep_snapshot(s3, r, site)) for s3, r in outs)
                 outcomes = outcomes + tuple((tuple(f[0] for f in e['facts'][nf:]), ('abort', e['detail'])) for e in aborted)
             return ('lambda', t[1], caps, outcomes)
         if t[0] == 'tup':
             return ('tup', tuple(self.snapshot(st, x, site) for x in t[1]))
+        return t
+
+    def deep_snapshot(self, st, t, site=None, depth=0):
+        """snapshot that also resolves references held inside constructor / tuple / vector payloads (a closure returning `Some(&x.f)`)"""
+        t = self.snapshot(st, t, site)
+        if depth > 6: return t
+        if t[0] == 'adt': return ('adt', t[1], t[2], tuple((n, self.deep_snapshot(st, v, site, depth + 1)) for n, v in t[3]))
+        if t[0] == 'tup': return ('tup', tuple(self.deep_snapshot(st, x, site, depth + 1) for x in t[1]))
+        if t[0] == 'vec': return ('vec', tuple(self.deep_snapshot(st, x, site, depth + 1) for x in t[1]))
         return t
 
     def opaque_call(self, st, info, args):
@@ -786,6 +795,49 @@ def serde_tables(prog):
                 out['required_fields'].setdefault(m2.group(1), []).append(strs[0])
     return out
 
+def wire_tables(prog):
+    """wire identifiers of the derived serde impls, read from their MIR: for every type, the strings its Deserialize field/variant
+    visitors accept (`__FieldVisitor::visit_str`: string -> __fieldN), outermost visitor first then the per-variant visitors in
+    definition order; and the keys / variant names its Serialize impl writes."""
+    out = {'accepts': {}, 'writes': {}}
+    for b in prog.raw['bodies']:
+        d = b['def']
+        m = re.search(r"Deserialize<'de> for (.+?)>::deserialize(::.*)?::__FieldVisitor as .*Visitor<'de>>::visit_str$", d)
+        if m:
+            blocks = b['blocks']; got = {}
+            for bb in blocks:
+                t = bb['t']
+                if t['k'] != 'call' or 'fn' not in t['f'] or not t['f']['fn']['def'].endswith('PartialEq::eq'): continue
+                strs = [parse_const(a) for a in t['args'] if a['k'] == 'const' and 'fn' not in a]
+                strs = [c[1] for c in strs if c[0] == 'c' and isinstance(c[1], str)]
+                if len(strs) != 1 or t.get('t') is None: continue
+                nb = blocks[t['t']]['t']; cur = None
+                if nb['k'] == 'switch': cur = nb['otherwise']
+                fld = None; hops = 0
+                while cur is not None and hops < 6 and fld is None:
+                    for st_ in blocks[cur]['s']:
+                        rv = st_.get('rv') if st_['k'] == 'assign' else None
+                        if rv and rv.get('k') == 'aggregate' and str(rv.get('variant', '')).startswith('__field'): fld = rv['variant']
+                    tt = blocks[cur]['t']; cur = tt['t'] if tt['k'] == 'goto' else None; hops += 1
+                got.setdefault(fld, []).append(strs[0])
+            def idx(k):
+                mm = re.match(r'__field(\d+)$', k or ''); return int(mm.group(1)) if mm else 10 ** 6
+            names = [sorted(got[k]) for k in sorted(got, key=idx)]
+            out['accepts'].setdefault(m.group(1), []).append({'nested': d.count('visit_enum'), 'names': [n[0] if len(n) == 1 else n for n in names]})
+        m = re.search(r'Serialize for (.+)>::serialize$', d)
+        if m:
+            w = out['writes'].setdefault(m.group(1), {'keys': [], 'variants': []})
+            for bb in b['blocks']:
+                t = bb['t']
+                if t['k'] != 'call' or 'fn' not in t['f']: continue
+                fname = t['f']['fn']['def']
+                consts = [parse_const(a) for a in t['args'] if a['k'] == 'const' and 'fn' not in a]
+                strs = [c[1] for c in consts if c[0] == 'c' and isinstance(c[1], str)]
+                if fname.endswith('::serialize_field') and strs: w['keys'].append(strs[0])
+                elif re.search(r'::serialize_(unit|struct|newtype|tuple)_variant$', fname) and len(strs) >= 2: w['variants'].append(strs[1])
+            w['keys'].sort(); w['variants'].sort()
+    return out
+
 def callsite_inventory(prog):
     """every call site in hand-written (non-derive) bodies: (callee, resolved callee, caller, span, constant args as text)"""
     out = []
@@ -819,6 +871,7 @@ def analyse(facts_path, out_path=None, verbose=False, merge_bool=True):
                 for e in r['exits']: ks[e['kind']] = ks.get(e['kind'], 0) + 1
                 print('root %-12s %-24s exits=%d %s wall=%.1fs steps=%d' % (kind, name, len(r['exits']), ks, r['wall'], it.steps), file=sys.stderr)
     result['serde'] = serde_tables(prog)
+    result['wire'] = wire_tables(prog)
     result['callsites'] = callsite_inventory(prog)
     result['unmodelled'] = it.unmodelled
     result['inlined'] = it.inlined
